@@ -3,7 +3,8 @@ import numpy as np
 
 from .read import SgzReader
 from .version import SeismicZfpVersion
-from .utils import pad, int_to_bytes, np_float_to_bytes, np_float_to_bytes_signed, coord_to_index
+from .utils import (pad, int_to_bytes, np_float_to_bytes, np_float_to_bytes_signed, coord_to_index,
+                    WrongDimensionalityError)
 from .sgzconstants import DISK_BLOCK_BYTES, SEGY_TEXT_HEADER_BYTES
 
 
@@ -98,6 +99,21 @@ class SgzCropper(SgzReader):
 
         return header
 
+    def read_block_range(self, iline_index_range, xline_index_range, zslices_index_range):
+        """Copies the disk blocks covering block-aligned index ranges, in the order they have in a file of that extent"""
+        first_block = [r[0] // b for r, b in zip((iline_index_range, xline_index_range, zslices_index_range),
+                                                 self.blockshape)]
+        n_blocks = [pad(r[1], b) // b - r[0] // b for r, b in zip((iline_index_range, xline_index_range,
+                                                                   zslices_index_range), self.blockshape)]
+        block_dims = self.loader.block_dims
+        buffer = bytearray()
+        for i in range(first_block[0], first_block[0] + n_blocks[0]):
+            for x in range(first_block[1], first_block[1] + n_blocks[1]):
+                # No need to loop over z... blocks are contiguous, so do it in one file read
+                bytes_start = self.block_bytes * (block_dims[2] * ((block_dims[1] * i) + x) + first_block[2])
+                buffer += self.loader._get_compressed_bytes(bytes_start, self.block_bytes * n_blocks[2])
+        return buffer
+
     @staticmethod
     def get_index_range(coord_range, coord_list):
         if coord_range is None:
@@ -169,15 +185,11 @@ class SgzCropper(SgzReader):
                                                                                                   xline_index_range,
                                                                                                   zslices_index_range)
 
-        z_units = (pad(zslices_index_range[1], self.blockshape[2]) - zslices_index_range[0]) // 4
-        xl_units = (xline_index_range[1] - xline_index_range[0]) // 4
-        il_units = (iline_index_range[1] - iline_index_range[0]) // 4
+        if self.is_2d:
+            raise WrongDimensionalityError("Trying to crop 2D file")
 
         header = self.regenerate_header(iline_index_range, xline_index_range, zslices_index_range)
-        compressed_bytes = self.loader.read_chunk_range(iline_index_range[0],
-                                                        xline_index_range[0],
-                                                        zslices_index_range[0],
-                                                        il_units, xl_units, z_units)
+        compressed_bytes = self.read_block_range(iline_index_range, xline_index_range, zslices_index_range)
         with open(out_file, 'wb') as new_sgz_file:
             new_sgz_file.write(header)
             new_sgz_file.write(compressed_bytes)
